@@ -65,6 +65,36 @@ def run_decode(case):
     return out
 
 
+def enum_far_offset(tier):
+    """A small array that starts far into a large body: the limit on an array is its own length (2^26 bytes), not where in
+    the message it ends (a body may have 2^27 bytes)."""
+    for le in (True, False):
+        yield {'lead_bytes': 2**26, 'le': le}
+    yield {'lead_bytes': 2**26 + 4099, 'le': True}
+
+
+def run_far_offset(case):
+    from txdbus import marshal as M
+    lead = 'L' * case['lead_bytes']
+    trees = [lead, [1, 2, 3], [['k', ['u', 7]]]]
+    sig = 'saia{sv}'
+    ref = R.encode(sig, trees, 0, case['le'], [])
+    out = []
+    try:
+        n, vals = M.unmarshal(sig, ref, 0, case['le'])
+    except Exception as e:
+        return [Disc(exc_key(e, 'far.unmarshal'), 'conformant encoding with arrays beyond offset 2^26 refused: ' + exc_detail(e))]
+    if n != len(ref) or vals[0] != lead or not R.nf_equal(vals[1:], [[1, 2, 3], {'k': 7}]):
+        out.append(Disc('far.decoded-value', 'consumed %d of %d; tail %r' % (n, len(ref), vals[1:])))
+    try:
+        n2, chunks = M.marshal(sig, [lead, [1, 2, 3], {'k': M.UInt32(7)}], 0, case['le'])
+        if b''.join(chunks) != ref:
+            out.append(Disc('far.encoded-bytes', 'encoding differs from the reference beyond the leading string'))
+    except Exception as e:
+        out.append(Disc(exc_key(e, 'far.marshal'), exc_detail(e)))
+    return out
+
+
 def enum_no_encoding(tier):
     """Values for which the specification defines NO encoding (a string with an embedded NUL cannot be NUL-terminated
     text): the encoder must refuse them, not emit bytes another implementation would read as something else."""
@@ -102,6 +132,9 @@ SUBCHECKS = [
     Subcheck('grid_dec', run_decode, C.classify_marshal,
              enumerate=lambda tier: C.grid_cases(64), shards={'quick': 2, 'thorough': 2},
              exhaustive_note='17 type codes x 64 start offsets x 2 byte orders, decode direction'),
+    Subcheck('far_offset', run_far_offset, lambda c: (True, ['array_beyond_2^26']), enumerate=enum_far_offset,
+             shards={'quick': 3, 'thorough': 3},
+             exhaustive_note='small arrays placed behind a 64 MiB string (3 layouts): decoded and encoded like anywhere else'),
     Subcheck('no_encoding', run_no_encoding, lambda c: (True, ['embedded_nul']), enumerate=enum_no_encoding,
              shards={'quick': 1, 'thorough': 1},
              exhaustive_note='4 strings with an embedded NUL x 6 positions (plain, array element, dict key / value, struct '
